@@ -479,6 +479,11 @@ func desc(v ssa.Value, depth int) string {
 	if depth > 12 {
 		return "…"
 	}
+	if descValEnv != nil && v != nil {
+		if s, ok := descValEnv[v]; ok {
+			return s
+		}
+	}
 	switch x := v.(type) {
 	case nil:
 		return "<nil>"
